@@ -3,8 +3,10 @@ package demo
 import (
 	"strings"
 	"testing"
+	"unicode/utf8"
 
 	"github.com/tsawler/tabula/model"
+	"github.com/tsawler/tabula/pptx"
 	"github.com/tsawler/tabula/rag"
 )
 
@@ -31,5 +33,23 @@ func TestChunkHeadingLevelCapped(t *testing.T) {
 	md := c.ToMarkdownWithOptions(opts)
 	if strings.Contains(md, "#######") {
 		t.Fatalf("heading with more than six '#': %q", md)
+	}
+}
+
+// C15 / R6.12: pptx.replaceAll (the cell escaper behind Table.ToMarkdown) copied the text byte by byte with
+// string(s[i]), which encodes each byte as a code point: every non-ASCII character of a table cell came out as mojibake.
+func TestPptxTableCellKeepsNonASCII(t *testing.T) {
+	tb := &pptx.Table{Columns: 2, Rows: [][]pptx.TableCell{
+		{{Text: "Größe"}, {Text: "café | thé"}},
+		{{Text: "日本語"}, {Text: "naïve"}},
+	}}
+	md := tb.ToMarkdown()
+	for _, want := range []string{"Größe", "café \\| thé", "日本語", "naïve"} {
+		if !strings.Contains(md, want) {
+			t.Errorf("Markdown of the slide table lost %q: %q", want, md)
+		}
+	}
+	if !utf8.ValidString(md) {
+		t.Errorf("invalid UTF-8: %q", md)
 	}
 }
